@@ -12,12 +12,18 @@ for d in seeded/*/; do
   scr=/tmp/seedmx-$$
   # the patch was written against the HEAD of its day: use the newest commit it still applies to
   base=""
-  for c in $(git -C /repo log --format=%h -n 40); do
+  for c in $(git -C /repo log --format=%h -n 120); do
     git -C /repo worktree add --detach $scr $c -q || exit 2
     if ( cd $scr && git apply /verif/$d/patch.diff 2>/dev/null ); then base=$c; break; fi
     git -C /repo worktree remove --force $scr
   done
   if [ -z "$base" ]; then echo "$name PATCH-DOES-NOT-APPLY"; continue; fi
+  # the harness needs the verif hooks (build tag verif, add-only): bring a base that predates one up to date
+  for hc in a1f4396 092d3b7; do
+    if ! git -C /repo merge-base --is-ancestor $hc $base 2>/dev/null; then
+      git -C /repo show $hc | ( cd $scr && git apply 2>/dev/null ) || true
+    fi
+  done
   line="$name base=$base"
   for s in $seeds; do
     VERIF_SEED=$s VERIF_REPO=$scr ./check $id > /tmp/seedmx-$$.log 2>&1; rc=$?
